@@ -495,15 +495,15 @@ def cut_async(trace):
     return " ".join(out)
 
 class Case:
-    __slots__ = ("body", "decl", "mode", "probe", "hists", "depths", "create", "tag", "exp", "sig", "run_hists", "marks", "emarks")
+    __slots__ = ("body", "decl", "mode", "probe", "hists", "depths", "create", "tag", "exp", "sig")
     def __init__(self, body, decl, mode, probe, hists, depths, create, tag, sig=None):
         self.body, self.decl, self.mode, self.probe = body, decl, mode, probe
         self.hists, self.depths, self.create, self.tag = hists, depths, create, tag
-        self.exp, self.sig, self.run_hists, self.marks, self.emarks = None, sig, None, None, None
+        self.exp, self.sig = None, sig
     def src(self): return js_func(self.body, self.mode, self.probe, self.decl)
     def tokens(self): return " ".join(tok_block(self.body))
     def harness_line(self):
-        return json.dumps({"mode": self.mode, "src": self.src(), "hists": self.run_hists if self.run_hists is not None else self.hists, "depths": self.depths,
+        return json.dumps({"mode": self.mode, "src": self.src(), "hists": self.hists, "depths": self.depths,
                            "create": self.create, "probe": self.probe})
     def model_line(self):
         hs = self.hists if self.mode == "gen" else [("n:u " + h).strip() for h in self.hists]
@@ -511,34 +511,9 @@ class Case:
     def single(self, i):
         return Case(self.body, self.decl, self.mode, self.probe, [self.hists[i]], [self.depths[i]], [self.create[i]], self.tag, self.sig)
 
-KNOWN_RETURNING = "goja:go-panic-exception-caught-while-generator-returning"
-KNOWN_ENF_PTR = "goja:enterNextFinallyFrame-stale-tryframe-pointer-after-closing-an-iterator"
-
-def set_expected(case, model_out, cut=True):
-    """Sets case.exp (spec traces) and case.marks (index of the first command that raises a Go-panic-origin exception
-    while generator.returning is set — territory of the one unrepaired defect, known_findings.d/C09.json — or None).
-    With cut=True such a history is sent to goja only up to that command (case.run_hists): the defect corrupts the vm /
-    crashes the process and would poison the other histories sharing the runtime; a sample is run in full, isolated."""
+def set_expected(case, model_out):
     tr = model_out.split(" # ")
-    exp, marks, run, emarks = [], [], [], []
-    for h, t in zip(case.hists, tr):
-        idx = None; eidx = None
-        if "%" in t:
-            t, i = t.rsplit("%", 1)
-            t, eidx = t.strip(), int(i)
-        if "@" in t:
-            t, i = t.rsplit("@", 1)
-            t, idx = t.strip(), int(i)
-        emarks.append(eidx)
-        if case.mode == "async":
-            t = cut_async(t)
-            idx = None
-        if idx is not None and cut:
-            run.append(" ".join(h.split(" ")[:idx])); t = " ".join(t.split(" ")[:idx])
-        else:
-            run.append(h)
-        exp.append(t); marks.append(idx)
-    case.exp, case.marks, case.run_hists, case.emarks = exp, marks, run, emarks
+    case.exp = [cut_async(t) for t in tr] if case.mode == "async" else tr
 
 def first_diff(exp, obs):
     e, o = exp.split(" "), obs.split(" ")
@@ -548,28 +523,17 @@ def first_diff(exp, obs):
     return None
 
 def compare(case, hline):
-    """-> (mismatches [(i, exp, obs, known?)], mech [[q, obs]], idle, err)"""
+    """-> (mismatches [(i, exp, obs)], mech [[q, obs]], idle, err)"""
     try:
         h = json.loads(hline)
     except Exception:
-        return [(0, "?", "harness output unparsable: " + str(hline)[:200], False)], [], "?", "unparsable"
+        return [(0, "?", "harness output unparsable: " + str(hline)[:200])], [], "?", "unparsable"
     if h.get("err"):
-        return [(0, "?", "harness error: " + h["err"], False)], [], h.get("idle", "?"), h["err"]
+        return [(0, "?", "harness error: " + h["err"])], [], h.get("idle", "?"), h["err"]
     obs = h.get("traces") or []
     exp = case.exp
-    mm = []
-    for i in range(max(len(exp), len(obs))):
-        if i >= len(exp) or i >= len(obs):
-            mm.append((i, exp[i] if i < len(exp) else "?", obs[i] if i < len(obs) else "?", False)); continue
-        if exp[i] != obs[i]:
-            idx = case.marks[i]
-            d = first_diff(exp[i], obs[i])
-            known = idx is not None and ((d is not None and d >= idx) or obs[i].startswith("PANIC") or obs[i].startswith("ERR"))
-            if not known:
-                eidx = case.emarks[i]
-                if eidx is not None and d is not None and d >= eidx:
-                    known = "E"
-            mm.append((i, exp[i], obs[i], known))
+    mm = [(i, exp[i] if i < len(exp) else "?", obs[i] if i < len(obs) else "?")
+          for i in range(max(len(exp), len(obs))) if i >= len(exp) or i >= len(obs) or exp[i] != obs[i]]
     return mm, h.get("mech") or [], h.get("idle", "ok"), None
 
 # ----------------------------------------------------------------------------------------- shrinking
@@ -597,24 +561,21 @@ def sub_bodies(body):
                     yield block[:i] + [("TR", s[1], s[2], None)] + block[i + 1:]
     yield from rec(list(body))
 
-def single_mismatch(ctx, harness, model, case, cut=True, allow_known=False):
-    """Run a single-history case through model and harness in a fresh runtime; returns (i, exp, obs, known) or None.
+def single_mismatch(ctx, harness, model, case):
+    """Run a single-history case through model and harness in a fresh runtime; returns (i, exp, obs) or None.
     A harness timeout is retried once with a long timeout before it counts."""
     ml = ctx.run_lines([model], [case.model_line()], timeout=120)[1]
     if not ml:
         return None
-    set_expected(case, ml[0], cut=cut)
-    marked = case.marks[0] is not None
+    set_expected(case, ml[0])
     rc, hl, err = ctx.run_lines([harness], [case.harness_line()], timeout=60)
     if rc == 124 or not hl:
         rc, hl, err = ctx.run_lines([harness], [case.harness_line()], timeout=240)
     if rc == 124 or not hl:
-        mm = [(0, case.exp[0], "goja did not return within 240 s (hang or crash): " + err[-200:], marked and not cut)]
-    else:
-        mm, _, idle, _ = compare(case, hl[0])
-        if not mm and idle != "ok":
-            mm = [(0, case.exp[0] + " / idle ok", json.loads(hl[0]).get("traces", ["?"])[0] + " / " + idle, marked and not cut)]
-    mm = [m for m in mm if allow_known or not m[3]]
+        return (0, case.exp[0], "goja did not return within 240 s (hang or crash): " + err[-200:])
+    mm, _, idle, _ = compare(case, hl[0])
+    if not mm and idle != "ok":
+        mm = [(0, case.exp[0] + " / idle ok", json.loads(hl[0]).get("traces", ["?"])[0] + " / " + idle)]
     return mm[0] if mm else None
 
 def shrink(ctx, harness, model, case, i):
@@ -679,7 +640,7 @@ def report_case(ctx, harness, model, case, i, exp, obs, kind):
     small = shrink(ctx, harness, model, case, i) if model else None
     c = small or case.single(i)
     mm = single_mismatch(ctx, harness, model, c) if (model and small) else None
-    mm = mm or (0, exp, obs, False)
+    mm = mm or (0, exp, obs)
     return ctx.violation(sig_of(kind, c), "%s body {%s} history [%s] depths %s: spec %s / goja %s" %
                          (c.mode, c.src()[:300], c.hists[0], c.depths[0], mm[1], mm[2]),
                          replay_dict(c, mm[1], mm[2], small is not None))
@@ -746,7 +707,7 @@ def build_cases(ctx):
     return cases
 
 N_EX_QUICK, N_EX_THOROUGH = 20, 400
-N_THEOREMS = 36
+N_THEOREMS = 38
 
 RULE = ("one evaluation = one (body, driver history) pair run on goja and on the Lean model (plus one per mechanism dump); "
         "distinct & non-trivial = distinct (mode, body, history) whose trace contains at least one suspension followed by a further command")
@@ -787,7 +748,7 @@ def main(ctx):
         ctx.obligation("corr:model-run", "correspondence", False, "model driver unavailable or failing (Lean build broken?)")
         indep_oracle(ctx, cases, hl)        # the implementation-side search still runs: laws that need no model
         return ctx.finish(level="proof", rule=RULE)
-    n_hist = 0; bad = {"gen": [], "async": []}; mech = {}; idle_bad = []; known_hits = []; cut_list = []
+    n_hist = 0; bad = {"gen": [], "async": []}; mech = {}; idle_bad = []
     feats = {}; reskinds = {"Y": 0, "D": 0, "T": 0}; lens = {}; depth_used = {}
     for c, h in zip(cases, hl):
         if h is None:
@@ -798,14 +759,7 @@ def main(ctx):
             mech[q] = o
         if idle != "ok":
             idle_bad.append((c, idle))
-        for (i, e, o, known) in mm:
-            if known:
-                known_hits.append((c, i, e, o, known))
-            else:
-                bad[c.mode].append((c, i, e, o))
-        for i, idx in enumerate(c.marks):
-            if idx is not None and len(cut_list) < 5000:
-                cut_list.append((c, i))
+        bad[c.mode].extend((c, i, e, o) for i, e, o in mm)
         if not mm:
             for f in body_features(c.body):
                 feats[f] = feats.get(f, 0) + 1
@@ -816,39 +770,10 @@ def main(ctx):
                     if ch in reskinds: reskinds[ch] += 1
                 lens[len(parts)] = lens.get(len(parts), 0) + 1
                 if kinds.count("Y") >= 1 and len(kinds) >= 2:
-                    ctx.nontriv((c.mode, c.tokens(), c.run_hists[i]))
+                    ctx.nontriv((c.mode, c.tokens(), c.hists[i]))
             if c.mode == "gen":
                 for d in c.depths:
                     for ch in d: depth_used[ch] = depth_used.get(ch, 0) + 1
-    # histories in the territory of the unrepaired defect were cut before the marked command; run a sample in full,
-    # each in a fresh process (corpus replays first)
-    ctx.rng.shuffle(cut_list)
-    cut_list.sort(key=lambda ci: 0 if (ci[0].tag.startswith("corpus:") and ci[1] < 1 + NDEPTH) else 1)
-    iso = cut_list[:12 if ctx.tier == "quick" else 48]
-    def run_iso(ci):
-        c1 = ci[0].single(ci[1])
-        return c1, single_mismatch(ctx, harness, model, c1, cut=False, allow_known=True)
-    if iso:
-        with ThreadPoolExecutor(6) as ex:
-            for c1, mm in ex.map(run_iso, iso):
-                n_hist += 1
-                if mm is not None:
-                    if mm[3]:
-                        known_hits.append((c1, 0, mm[1], mm[2], mm[3]))
-                    else:
-                        bad["gen"].append((c1, 0, mm[1], mm[2]))
-    ctx.stats["unrepaired_defect_territory"] = {"histories_cut": len(cut_list), "run_isolated": len(iso), "mismatches_attributed": len(known_hits)}
-    e_hits = [k for k in known_hits if k[4] == "E"]
-    known_hits = [k for k in known_hits if k[4] != "E"]
-    ctx.stats["unrepaired_defect_territory"]["enterNextFinallyFrame_pointer_mismatches"] = len(e_hits)
-    for (c, i, e, o, _) in e_hits[:1]:
-        c1 = c.single(i)
-        ctx.violation(KNOWN_ENF_PTR, "%s {%s} history [%s] depths %s: spec %s / goja %s" % (c1.mode, c1.src()[:260], c1.hists[0], c1.depths[0], e, o),
-                      replay_dict(c1, e, o, False))
-    for (c, i, e, o, _) in known_hits[:1]:
-        c1 = c.single(i)
-        ctx.violation(KNOWN_RETURNING, "%s {%s} history [%s]: spec %s / goja %s" % (c1.mode, c1.src()[:260], c1.hists[0], e, o),
-                      replay_dict(c1, e, o, False))
     ctx.count(n_hist)
     for c in cases[:3] + cases[-3:]:
         ctx.sample({"mode": c.mode, "src": c.src()[:400], "history": c.hists[-1], "depths": c.depths[-1]})
@@ -870,9 +795,9 @@ def main(ctx):
             hi = int(idle.split(":")[0].split(" ")[1])
         except Exception:
             hi = 0
-        c1 = c.single(hi); c1.hists = [c.run_hists[hi]]
-        ctx.violation("idle:" + hashlib.sha1((c.tokens() + c.run_hists[hi]).encode()).hexdigest()[:10],
-                      "vm stacks not restored after driving {%s} with [%s]: %s" % (c.src()[:300], c.run_hists[hi], idle),
+        c1 = c.single(hi)
+        ctx.violation("idle:" + hashlib.sha1((c.tokens() + c.hists[hi]).encode()).hexdigest()[:10],
+                      "vm stacks not restored after driving {%s} with [%s]: %s" % (c.src()[:300], c.hists[hi], idle),
                       replay_dict(c1, "idle ok", idle, False))
     ctx.obligation("corr:caller-vm-idle-clean", "correspondence", not idle_bad, "; ".join(i for _, i in idle_bad[:3]))
     # mechanism: suspend / resume rebasing, implementation dumps vs the Lean model
@@ -963,12 +888,6 @@ def replay(ctx, path):
         h = d["history"] if mode == "gen" else ("n:u " + d["history"]).strip()
         rc, mo, _ = ctx.run_lines([model], ["G " + " ".join(tok_block(body)) + " # " + h])
         exp = mo[0] if mo else "?"
-        if "%" in exp:
-            exp, i = exp.rsplit("%", 1); exp = exp.strip()
-            print("note     : command %s is a return(v) that closes an iterator before a finally (territory of %s)" % (i, KNOWN_ENF_PTR))
-        if "@" in exp:
-            exp, i = exp.rsplit("@", 1); exp = exp.strip()
-            print("note     : from command %s on the history is in the territory of the unrepaired finding %s" % (i, KNOWN_RETURNING))
         if mode == "async": exp = cut_async(exp)
     print("spec     :", exp)
     same = (obs.get("traces") or ["?"])[0] == exp and obs.get("idle") == "ok"
